@@ -255,3 +255,36 @@ Example C13_empty_object_handled :
   option_map (fun h => length (h_calls h))
     (handle_json_reader nmj_e (fun _ _ => true) (fun _ => true) (file_schedule (jstream true ds_empty []))) = Some 3.
 Proof. split; [repeat constructor|reflexivity]. Qed.
+
+(* ---- tie to the CURRENT source of getJson (json.go): go2v translates the function statement by statement on every
+   run (Gen/Pure_gen.v: fn_getJson - the `for { }` loop around rdr.Read(bval), the (0, nil) retry, the end-of-input
+   returns, the byte switch with break / continue, the statements after it); GenProofs/PureG6.v proves the translated
+   loop equal to the model scanner [get_json] the theorems above are about, on EVERY reader schedule. *)
+From Mxj Require Import Gen.Setters_gen Gen.PureSupport Gen.Pure_gen GenProofs.PureG6.
+
+Theorem C13_get_json_code_is_model : forall st sc, fn_getJson st sc = gj_result (get_json sc).
+Proof. exact get_json_code_is_model. Qed.
+Print Assumptions C13_get_json_code_is_model.
+
+(* the translated loop always returns: it neither panics nor exhausts the fuel the translator gave it
+   (one more than the length of the schedule), whatever the reader does *)
+Theorem C13_get_json_code_returns : forall st sc, exists r sc', fn_getJson st sc = Ret (r, sc').
+Proof.
+  intros st sc. rewrite get_json_code_is_model.
+  destruct (readers_total (Build_machine _ unit tt (fun _ _ => inr (Ok VNil)) (fun _ => Ok VNil) (fun _ => Ok VNil)) (fun _ => Ok VNil) sc)
+    as (_ & _ & H & _).
+  destruct (get_json sc) as [[[b|b e] sc']|]; [eexists; eexists; reflexivity..|congruence].
+Qed.
+Print Assumptions C13_get_json_code_returns.
+
+(* getJson reads no package-level variable: the option state is not an input of the translated function *)
+Theorem C13_get_json_code_reads_no_option : forall st st' sc, fn_getJson st sc = fn_getJson st' sc.
+Proof. intros st st' sc. rewrite !get_json_code_is_model. reflexivity. Qed.
+Print Assumptions C13_get_json_code_reads_no_option.
+
+Example C13_get_json_code_nonvacuous :
+  fn_getJson gstate0 (Zero :: file_schedule (s " " ++ marshal false (VMap ex_m)) ++ [Zero; Data lbrace; DataEOF rbrace]) =
+    Ret ((marshal false (VMap ex_m), None), [Zero; Data lbrace; DataEOF rbrace]) /\
+  fn_getJson gstate0 [Data lbrace; Zero; DataEOF dq] = Ret ((s "{" ++ [dq], Some EOther), []) /\
+  fn_getJson gstate0 [Data rbrace; Data lbrace] = Ret (([], Some EOther), [Data lbrace]).
+Proof. repeat split; vm_compute; reflexivity. Qed.
